@@ -60,6 +60,24 @@ static ssize_t fdflush(void) { return 0; }
 static int fdputc(int c) { (void)c; return 0; }
 static ssize_t fdwrite(const char *str, size_t len) { (void)str; return (ssize_t)len; }
 #define fdprintf(...)	(0)
+#include "bitint.h"
+#if !defined REPLAY
+/* the big containers' assignment functions (contracts: C19.ass_bi383 /
+ * C19.ass_bi447) are replaced by a recorder of (container, value) */
+static const void *g_ass_to[4];
+static int g_ass_val[4];
+static unsigned g_nass;
+static void h_ass_big(const void *bi, int x)
+{
+	if (g_nass < 4U) {
+		g_ass_to[g_nass] = bi;
+		g_ass_val[g_nass] = x;
+	}
+	g_nass++;
+}
+# define ass_bi383(bi, x)	h_ass_big(bi, x)
+# define ass_bi447(bi, x)	h_ass_big(bi, x)
+#endif	/* !REPLAY */
 #include "evical.c"
 
 #if !defined RRKEY
@@ -75,11 +93,19 @@ void h_C09_snarf_rrule(void)
 #if defined REPLAY
 	/* native replay: the real libc reads the numbers back from their text */
 	char txt[128];
+# if RRK == 10
+	snprintf(txt, sizeof(txt), "FREQ=DAILY;" RRKEY "=%ldMO,%ldTU,%ldSU", v0, v1, v2);
+# else
 	snprintf(txt, sizeof(txt), "FREQ=DAILY;" RRKEY "=%ld,%ld,%ld", v0, v1, v2);
+# endif
 	struct rrulsp_s rr = snarf_rrule(txt, strlen(txt));
 	g_nnum = 3U;
 #else
+# if RRK == 10
+	static const char txt[] = "FREQ=DAILY;" RRKEY "=1MO,-22TU,333SU";
+# else
 	static const char txt[] = "FREQ=DAILY;" RRKEY "=1,-22,333";
+# endif
 	g_num[0] = v0, g_num[1] = v1, g_num[2] = v2;
 	g_nnum = 0U;
 	struct rrulsp_s rr = snarf_rrule(txt, sizeof(txt) - 1U);
@@ -112,6 +138,50 @@ void h_C09_snarf_rrule(void)
 	ASSERT(g_nnum == 3U, "three numbers read");
 	ASSERT(VP63(rr.wk) == (P_BIT(v0, 53) | P_BIT(v1, 53) | P_BIT(v2, 53)), "BYWEEKNO holds exactly the listed positive values within 1..53");
 	ASSERT(VN63(rr.wk) == (N_BIT(v0, 53) | N_BIT(v1, 53) | N_BIT(v2, 53)), "BYWEEKNO holds exactly the listed negative values within -53..-1, never 0");
+#elif RRK == 7 || RRK == 8 || RRK == 9	/* BYYEARDAY, BYSETPOS: +-1..366; BYEASTER: -366..366 */
+# if RRK == 7
+#  define C383	(&rr.doy)
+#  define OK383(v)	((v) != 0 && -366 <= (v) && (v) <= 366)
+# elif RRK == 8
+#  define C383	(&rr.pos)
+#  define OK383(v)	((v) != 0 && -366 <= (v) && (v) <= 366)
+# else
+#  define C383	(&rr.easter)
+#  define OK383(v)	(-366 <= (v) && (v) <= 366)
+# endif
+# if defined REPLAY
+	IN_RANGE(int, x, -383, 383);	/* witness value */
+	ASSERT(WF_383(C383), "the container is well-formed");
+	ASSERT(HAS_383(C383, x) == ((x == v0 && OK383(v0)) || (x == v1 && OK383(v1)) || (x == v2 && OK383(v2))), "the container holds exactly the listed values within range");
+# else
+	ASSERT(g_nnum == 3U, "three numbers read");
+	/* exactly the values within range are assigned, in order, to this key's container */
+	ASSERT(g_nass == (unsigned)OK383(v0) + (unsigned)OK383(v1) + (unsigned)OK383(v2), "one assignment per listed value within range, none for the others");
+	{
+		unsigned k = 0U;
+		if (OK383(v0)) { ASSERT(g_ass_val[k] == v0, "first value within range is assigned as written"); k++; }
+		if (OK383(v1)) { ASSERT(g_ass_val[k] == v1, "second value within range is assigned as written"); k++; }
+		if (OK383(v2)) { ASSERT(g_ass_val[k] == v2, "third value within range is assigned as written"); k++; }
+	}
+	/* (the rule is built in snarf_rrule's frame and returned by value, so the container is identified by the call order only) */
+# endif
+#elif RRK == 10	/* BYDAY n<weekday> */
+# define OKDAY(v)	(-53 <= (v) && (v) <= 53)
+# if defined REPLAY
+	IN_RANGE(int, x, -447, 447);	/* witness value */
+	ASSERT(WF_447(&rr.dow), "the container is well-formed");
+	ASSERT(HAS_447(&rr.dow, x) == ((OKDAY(v0) && x == pack_cd(CD((int)v0, MON))) || (OKDAY(v1) && x == pack_cd(CD((int)v1, TUE))) || (OKDAY(v2) && x == pack_cd(CD((int)v2, SUN)))),
+		"BYDAY holds exactly the listed (ordinal, weekday) pairs with ordinals within -53..53");
+# else
+	ASSERT(g_nnum == 3U, "three numbers read");
+	ASSERT(g_nass == (unsigned)OKDAY(v0) + (unsigned)OKDAY(v1) + (unsigned)OKDAY(v2), "one assignment per listed pair with an ordinal within -53..53");
+	{
+		unsigned k = 0U;
+		if (OKDAY(v0)) { ASSERT(g_ass_val[k] == pack_cd(CD((int)v0, MON)), "first pair is assigned as (ordinal, MO)"); k++; }
+		if (OKDAY(v1)) { ASSERT(g_ass_val[k] == pack_cd(CD((int)v1, TUE)), "second pair is assigned as (ordinal, TU)"); k++; }
+		if (OKDAY(v2)) { ASSERT(g_ass_val[k] == pack_cd(CD((int)v2, SUN)), "third pair is assigned as (ordinal, SU)"); k++; }
+	}
+# endif
 #elif RRK == 4	/* INTERVAL */
 	ASSERT(rr.freq == FREQ_NONE || (1U <= rr.inter && rr.inter <= 0x7fffffffU), "INTERVAL is a positive int in every accepted rule (never 0, never wrapped)");
 	ASSERT(rr.freq == FREQ_NONE || (long)rr.inter == v0, "INTERVAL is the number written");
